@@ -782,6 +782,24 @@ impl Board {
     }
 }
 
+/// Lets the view below read the keys of the position record whether it is a set, a list or a map.
+#[cfg(rce_verif)]
+trait VerifEntryKey {
+    fn verif_key(self) -> ZKey;
+}
+#[cfg(rce_verif)]
+impl VerifEntryKey for &ZKey {
+    fn verif_key(self) -> ZKey {
+        *self
+    }
+}
+#[cfg(rce_verif)]
+impl<V> VerifEntryKey for (&ZKey, &V) {
+    fn verif_key(self) -> ZKey {
+        *self.0
+    }
+}
+
 /// Read-only views of the fields that have no public getter.
 #[cfg(rce_verif)]
 #[allow(dead_code)]
@@ -795,7 +813,7 @@ impl Board {
         let mut keys: Vec<ZKey> = self
             .position_history
             .iter()
-            .map(|k| *k)
+            .map(VerifEntryKey::verif_key)
             .collect();
         keys.sort_by_key(std::string::ToString::to_string);
         keys
